@@ -52,6 +52,13 @@ theorem ext_verdict (s : St) (v : Ver) : Ext s (verifyVerdict s v).1 := by
     split
     · exact Ext.same rfl
     · exact ext_backoff s
+  | okLost =>
+    simp only [verifyVerdict]
+    split
+    · exact Ext.trans (Ext.same rfl : Ext s { s with secure := true }) (ext_finish _ _)
+    · split
+      · exact Ext.trans (Ext.same rfl) (ext_backoff _)
+      · exact ext_backoff s
   | wrongId =>
     simp only [verifyVerdict]
     split
